@@ -1,0 +1,6 @@
+//go:build !verif
+
+package cache
+
+// verifYield is a no-op in normal builds; see zz_verif.go.
+func verifYield(point string) {}
